@@ -1,0 +1,27 @@
+//! Verification hooks (compiled only with `--cfg quinn_rs_quinn_verif`).
+//!
+//! Each submodule interprets integer-encoded operation sequences against one real component
+//! and returns integer-encoded observations. Nothing here is compiled without the cfg flag.
+#![allow(missing_docs, dead_code, unused_imports, unreachable_pub, clippy::all)]
+
+pub(crate) mod state;
+pub(crate) mod recv;
+pub(crate) mod send;
+
+/// One operation = opcode followed by integer arguments.
+pub type Ops = [Vec<i128>];
+/// One observation per operation.
+pub type Outs = Vec<Vec<i128>>;
+
+pub(crate) fn run(comp: &str, ops: &Ops) -> Option<Outs> {
+    if let Some(o) = state::run(comp, ops) {
+        return Some(o);
+    }
+    if let Some(o) = recv::run(comp, ops) {
+        return Some(o);
+    }
+    if let Some(o) = send::run(comp, ops) {
+        return Some(o);
+    }
+    None
+}
